@@ -72,6 +72,9 @@ SetNoteMod(s, q, m) ==
   IF s.parent[m] = 0 THEN Res("ModuleOwnershipError", {s}, 0)
   ELSE Res("ok", {[s EXCEPT !.nmod[q] = s.index[m] + 1]}, 0)
 
+(* note.module = n: the stored number itself (16 bits, any value; the number survives save + load as it is) *)
+SetNoteNum(s, q, n) == Res("ok", {[s EXCEPT !.nmod[q] = n]}, 0)
+
 (* note.mod : the module at position number-1 of the pattern's project, or none. *)
 (* rets: the set of allowed results; beyond the list the property allows none     *)
 GetNoteMod(s, q) ==
